@@ -252,9 +252,26 @@ fn one(report: &mut Report, seed: u64, n: u64, root: &str, cli: Option<&str>) {
     let before_hash = fnv(&src.image);
     let before_list = listing(&dir);
     let use_cli = cli.is_some() && rng.chance(1, 4);
+    // race: somebody else creates the destination while the migration is busy writing its temporary
+    // copy (after the up-front existence check) - it must fail and leave that file alone
+    let race = !precreate && !use_cli && rng.below(6) == 0;
+    let raced = std::sync::Arc::new(std::sync::atomic::AtomicBool::new(false));
+    let racer = race.then(|| {
+        let (dir, dest, raced) = (dir.clone(), dest.clone(), raced.clone());
+        crate::mon::hub().add_racer(std::sync::Arc::new(move |file: feoxdb::verif::FileId| {
+            use std::os::unix::fs::MetadataExt;
+            let mine = std::fs::read_dir(&dir).map(|rd| rd.flatten().any(|e| e.metadata().map(|m| (m.dev(), m.ino()) == file).unwrap_or(false))).unwrap_or(false);
+            if mine && !raced.swap(true, std::sync::atomic::Ordering::SeqCst) {
+                use std::io::Write;
+                if let Ok(mut f) = std::fs::OpenOptions::new().write(true).create_new(true).open(&dest) {
+                    let _ = f.write_all(b"SENTINEL-do-not-touch");
+                }
+            }
+        }))
+    });
     report.evaluations += 1;
     report.count(&format!("source_{}", src.class), 1);
-    let replay = json!({"engine": "migrate", "seed": seed, "source": n, "class": src.class, "allow_legacy": src.allow_legacy, "precreated_destination": precreate});
+    let replay = json!({"engine": "migrate", "seed": seed, "source": n, "class": src.class, "allow_legacy": src.allow_legacy, "precreated_destination": precreate, "destination_created_during_migration": race});
     // expected logical contents from the independent reader
     let expected = indep::scan(&src.image, None, src.allow_legacy).map(|s| (s.version, logical_of_scan(&s)));
     let (ok, err_name, report_counts): (bool, String, Option<(u64, u64, u32, u32, u64, u64)>) = if use_cli {
@@ -282,6 +299,22 @@ fn one(report: &mut Report, seed: u64, n: u64, root: &str, cli: Option<&str>) {
             Ok(r) => (true, String::new(), Some((r.records, r.value_bytes, r.source_version, r.destination_version, r.destination_size, r.ambiguous_legacy_markers))),
             Err(e) => (false, err_class(&e), None),
         }
+    };
+    if let Some(id) = racer {
+        crate::mon::hub().remove_racer(id);
+    }
+    let raced = raced.load(std::sync::atomic::Ordering::SeqCst);
+    if raced {
+        report.count("destination_created_during_migration", 1);
+    }
+    let precreate = precreate || raced;
+    let before_list = if raced {
+        let mut l = before_list.clone();
+        l.push("dest.feox".into());
+        l.sort();
+        l
+    } else {
+        before_list
     };
     // the source is never modified
     let after = std::fs::read(&source).unwrap_or_default();
@@ -436,7 +469,7 @@ fn one(report: &mut Report, seed: u64, n: u64, root: &str, cli: Option<&str>) {
 pub fn run(args: &Args) -> Report {
     let mut report = Report::new(
         "migrate",
-        "legacy sources: (a) produced by the real engine running workloads on v1/v2 devices (updates, deletes, extent reuse, multi-block values, TTLs and TTL-only updates on v2; occasionally >256 / >4096 records to cross the scan-batch and flush thresholds), (b) synthesised by the independent codec: duplicates in either disk order, expired newest generation shadowing an older one, record ending at the last block, v1 keys of 4067-4074 bytes, ambiguous legacy markers with and without the opt-in, damaged blocks / non-zero tokens / bad marker tokens, v3 source, active allocation journal; 10 % with a pre-existing destination. Checked: source bytes unchanged (hash), directory listing (failure: unchanged; success: exactly the destination added), existing destination untouched, destination = v3 whose independent decode equals the independent recovery of the source (TTL filtering off) and the real store's recovery of a copy of the source, destination reopens with TTL on (expired winners invisible, nothing older appears) and off, MigrationReport counts, CLI exit codes on a sample. distinct = (source class, record count, source version) / (class, error)",
+        "legacy sources: (a) produced by the real engine running workloads on v1/v2 devices (updates, deletes, extent reuse, multi-block values, TTLs and TTL-only updates on v2; occasionally >256 / >4096 records to cross the scan-batch and flush thresholds), (b) synthesised by the independent codec: duplicates in either disk order, expired newest generation shadowing an older one, record ending at the last block, v1 keys of 4067-4074 bytes, ambiguous legacy markers with and without the opt-in, damaged blocks / non-zero tokens / bad marker tokens, v3 source, active allocation journal; 10 % with a pre-existing destination, and in a further share the destination is created by somebody else while the migration is writing its temporary copy (hook on the first device write of an unwatched file). Checked: source bytes unchanged (hash), directory listing (failure: unchanged; success: exactly the destination added), existing destination untouched, destination = v3 whose independent decode equals the independent recovery of the source (TTL filtering off) and the real store's recovery of a copy of the source, destination reopens with TTL on (expired winners invisible, nothing older appears) and off, MigrationReport counts, CLI exit codes on a sample. distinct = (source class, record count, source version) / (class, error)",
     );
     let shard = args.num("shard", 0);
     let shards = args.num("shards", 1).max(1);
